@@ -636,4 +636,36 @@ Proof.
   intro k. rewrite V1, V2, Hb. reflexivity.
 Qed.
 
+(* ------------------------------------------------------------------------------------------------ *)
+(** * The hypothesis [tidy5] is met after every successful POST /scenario and kept by the pure routes  *)
+
+Lemma post_scenario_tidy : forall (s : state) (r : request) resp s',
+  post_scenario s r = Ok (resp, s') -> rs_status resp = 200 -> exists m, st_model s' = Some m /\ tidy5 (m_attrs m).
+Proof.
+  intros s r resp s' H Hst. unfold post_scenario in H.
+  destruct (rq_ctype r); try (unfold fail in H; inversion H; subst; simpl in Hst; discriminate).
+  destruct (rq_toml r) as [|name mv|]; try discriminate; try (unfold fail in H; inversion H; subst; simpl in Hst; discriminate).
+  destruct mv as [| | |d|]; try discriminate; try (unfold fail in H; inversion H; subst; simpl in Hst; discriminate).
+  unfold res_bind in H.
+  match type of H with context[derive (st_soltable s) ?mm] => destruct (derive (st_soltable s) mm) as [m1|] eqn:ED; [|discriminate] end.
+  unfold respond in H. inversion H; subst. simpl. exists m1. split; [reflexivity|].
+  assert (T0 : forall k, tidy (ca_replace [] "ModelSuppliedPlanningUnitName" (AStr "SubCatchment")) k).
+  { intro k. unfold ca_replace, a_has. cbn [a_value is_null negb]. unfold a_add. cbn [app]. unfold tidy. cbn [a_count a_value].
+    destruct (String.eqb "ModelSuppliedPlanningUnitName" k) eqn:E; [right; split; [reflexivity|discriminate]|left; reflexivity]. }
+  destruct (derive_view (st_soltable s) _ m1 ED) as (Vw & TT & _).
+  { simpl. repeat split; apply T0. }
+  simpl in Vw, TT. split; [repeat split; apply TT, T0|]. split; [apply TT, T0|].
+  rewrite Vw. reflexivity.
+Qed.
+
+Lemma pure_run_keeps_tidy : forall (rs : list request) (s s' : state) m,
+  Inv s -> forallb wf_request rs = true -> forallb pure_route rs = true -> run s rs = Ok s' ->
+  st_model s = Some m -> tidy5 (m_attrs m) -> exists m', st_model s' = Some m' /\ tidy5 (m_attrs m').
+Proof.
+  intros rs s s' m HI Hw Hp Hr Em T5.
+  destruct (pure_run rs s s' HI Hw Hp Hr) as [[Hs _]|(_ & ma & m' & Ema & Em' & _ & W)].
+  - subst s'. eauto.
+  - rewrite Em in Ema. inversion Ema; subst ma. destruct W as (_ & _ & W). destruct (W T5) as [T5' _]. eauto.
+Qed.
+
 End C14.
